@@ -8,6 +8,7 @@ z3 is the independent oracle: satisfiability of F & assumptions, entailment of e
 
 import importlib
 import itertools
+import zlib
 import types
 
 import z3
@@ -265,6 +266,7 @@ def build_items(tier, rng, which):
     q = tier == "quick"
     c3 = clean_clauses(3)
     ASS3 = [(), (-1,), (1, -2), (3,)]
+    spread0 = zlib.crc32(repr(rng.getstate()[1][:8]).encode())
 
     def add(name, fam, ass, k, **extra):
         for ch in chunks(fam, k):
@@ -272,6 +274,8 @@ def build_items(tier, rng, which):
             p.update(extra.get("params", {}))
             it = {"name": name, "harness": "h_sat", "params": p}
             it.update({a: b for a, b in extra.items() if a != "params"})
+            if "max_paths" in it:  # capped tree: scatter the explored paths over all depths (Explorer.spread); seed tied to VERIF_SEED without consuming rng
+                it["spread"] = zlib.crc32(("%s/%d" % (name, len(out))).encode()) ^ spread0
             out.append(it)
 
     sets1 = [list(cs) for cs in itertools.combinations(c3, 1)]
